@@ -690,6 +690,32 @@ WITNESS_MAP = [
 ]
 
 
+def _recorded_cases(check, oid):
+    """Cases of `check` that are the witness of a recorded (still open) finding of this property -- unless the finding covers
+    the obligation asked for."""
+    out = set()
+    try:
+        with open(os.path.join(os.path.dirname(os.path.dirname(os.path.abspath(__file__))), "known_findings.json")) as fh:
+            kf = json.load(fh)
+        fn = FUNC_OF_CHECK.get(check)
+        for f in kf.get("findings", []) if isinstance(kf, dict) else []:
+            if f.get("property") != "C02":
+                continue
+            ids = f.get("covers", [f.get("obligation", "")])
+            if oid in ids:
+                continue
+            w = f.get("witness") or {}
+            if w.get("check") == check and w.get("case"):
+                out.add(w["case"])
+            for i in ids:
+                m = re.search(r"C02/(.+)/bounded#tokens\[(.+)\]$", i or "")
+                if m and fn and m.group(1) == fn:
+                    out.add(m.group(2))
+    except Exception:  # noqa
+        return set()
+    return out
+
+
 def find(req):
     oid = req.get("obligation", "")
     if req.get("known_finding"):
@@ -725,6 +751,10 @@ def find(req):
     for frag, check, cases, kinds in WITNESS_MAP:
         if frag in oid:
             r = CHECKS[check]()
+            if cases is None:           # a recorded finding's own cases are not a failing input of some OTHER obligation
+                rec = _recorded_cases(check, oid)
+                if rec:
+                    cases = [c for c in r.cases if c not in rec]
             w = r.first_failure(cases, kinds)
             if w is not None:
                 return dict(w, reproduced=True, search=f"{check} (all trees of the small grammar in replay/c02_trees.py)")
